@@ -4,6 +4,7 @@
   matrix.py run [--workers K] [--threads N] [--base B] [--dir DIR] [NAME ...]
                 (--dir selftest/benign: the behaviour-preserving changes, on which nothing may fire)   (all seeded changes when none named)
   matrix.py table
+  matrix.py tier NAME PROP dbg|rel|asan [scale]     (ad hoc: one change, one property, one build variant; prints, records nothing)
 
 This is self-test tooling, not a registered check. So that it can run while other work uses
 /repo, it never touches /repo's working tree: each worker has a scratch git worktree of /repo
@@ -108,6 +109,45 @@ def run_one(name, root, wt, hz, threads, known):
     return res
 
 
+def run_tier(name, prop, variant, k=9, threads=8, scale=None, seeded_dir=None):
+    """Ad-hoc: one seeded change, one property, one build variant (dbg | rel | asan) of the quick workload, in a
+    scratch worktree (so that /repo stays untouched). Prints what fired; records nothing."""
+    root, wt, hz = setup_worker(k)
+    try:
+        d = os.path.join(seeded_dir or SEEDED, name)
+        code, out = sh(["git", "apply", os.path.join(d, "patch.diff")], cwd=wt)
+        if code != 0:
+            print("patch does not apply:", out[-300:])
+            return 2
+        env = env_offline()
+        cmd = ["cargo", "build", "--offline"]
+        binp = os.path.join(hz, "target", "debug", "rtcpmon")
+        extra = []
+        if variant == "rel":
+            cmd.append("--release")
+            binp = os.path.join(hz, "target", "release", "rtcpmon")
+        elif variant == "asan":
+            env["RUSTFLAGS"] = "-Zsanitizer=address -Cforce-frame-pointers=yes --cfg rtcpmon_asan"
+            cmd = ["cargo", "+nightly", "build", "--offline", "--target", "x86_64-unknown-linux-gnu"]
+            binp = os.path.join(hz, "target", "x86_64-unknown-linux-gnu", "debug", "rtcpmon")
+            env["ASAN_OPTIONS"] = "detect_leaks=0:halt_on_error=1:abort_on_error=0:exitcode=66:symbolize=1:allocator_may_return_null=1"
+            env["ASAN_SYMBOLIZER_PATH"] = shutil.which("llvm-symbolizer-14") or shutil.which("llvm-symbolizer") or ""
+            extra = ["--scale", scale or "0.5", "--track-cases"]
+        code, out = sh(cmd, cwd=hz, env=env)
+        if code != 0:
+            print("build failed:", out[-800:])
+            return 2
+        t0 = time.time()
+        code, out = sh([binp, "run", "--prop", prop, "--seed", "1", "--threads", str(threads), "--tool", "native-" + variant if variant != "asan" else "asan", "--out", os.path.join(root, "partial.json"), "--replays", os.path.join(root, "replays")] + extra, cwd=root, env=env, timeout=3000)
+        sigs = re.findall(r"^RAW-VIOLATION property=\S+ signature=(.*?) count=\d+$", out, re.M)
+        asan = re.findall(r"ERROR: AddressSanitizer: (\S+)", out)
+        frames = [m for m in re.findall(r"#\d+ .* in (\S+) (\S+)", out) if wt in m[1]][:3]
+        print("%s %s %s: exit %s, %d signature(s) %s, asan reports %s %s (%.0fs)" % (name, prop, variant, code, len(sigs), sigs[:4], asan[:2], frames, time.time() - t0))
+        return 0
+    finally:
+        teardown_worker(k)
+
+
 def run(names, workers, threads, base=0):
     known = open_known()
     names = list(names)
@@ -162,6 +202,12 @@ def main():
     if a[0] == "table":
         table()
         return 0
+    if a[0] == "tier":
+        # matrix.py tier NAME PROP dbg|rel|asan [scale] [--dir DIR]
+        sd = None
+        if "--dir" in a:
+            sd = os.path.abspath(a[a.index("--dir") + 1])
+        return run_tier(a[1], a[2], a[3], scale=a[4] if len(a) > 4 and not a[4].startswith("--") else None, seeded_dir=sd)
     if a[0] == "run":
         workers, threads, base = 2, 8, 0
         names = []
